@@ -9,22 +9,24 @@
    RH.Lex.LangLexer.lex_all = Tokenizer + TokenStream::new (shared with C11).
    The per-node formatter arms are not modelled (checks/c12.py reconstructs their traces from the real outputs).
 
-   FULL STATEMENT (DESIGN.md, C12 render_lex_roundtrip):
-     forall (ts : list token) (seps), ts is the output of `lex_all` on a diagnostic-free input ->
-       sep_ok (combine ts seps) = true -> render [] (combine ts seps) = Some text ->
-       exists ts', lex_all text = Done ts' [] /\ same_stream ts ts'.
-   PROVED (`_partial`): the same with the hypothesis "ts is a lexer output" replaced by the explicit boolean
-   well-formedness + kind restriction `supported_kind` on every token:
-     delimiters (all 37), keywords, basic identifiers, extended identifiers, string literals, character literals,
-     decimal integer literals without exponent — each with the shape the tokenizer produces (Latin-1, no line
-     break, validated identifier, value = decimal value < 2^64 ...).
-   MISSING: real, based and exponent literals, bit-string literals (their arms of parse_abstract_literal /
-   parse_bit_string are not proved; they are covered at run time by `relex_same` in the extracted runner), and the
-   derivation of `supported_kind` from "is a lexer output" for the covered kinds (checked at run time: the runner
-   evaluates supported_kind on every token of every explored file). *)
+   FULL STATEMENT (DESIGN.md, C12 render_lex_roundtrip) — PROVED as C12_render_lex_roundtrip:
+     forall (ts : list token), ts is the output of `lex_all` on a diagnostic-free input ->
+       for every separator assignment l over ts with sep_ok l = true and render l = Some text:
+       exists ts', lex_all text = Done ts' [] /\ same_stream ts ts'
+   for ALL token kinds: delimiters, keywords, basic and extended identifiers, character and string literals,
+   abstract literals (decimal with and without exponent, real, based with fraction and exponent) and bit string
+   literals (every base specifier, with and without length).  No kind is excluded.
+   How: C11_parse_token_stops_at_eof ("the arm stops when the input ends behind the lexeme") is lifted to "the arm
+   stops at every character of the follow set" by running the tokenizer in lockstep on a document that ends with
+   the lexeme and on the rendering (Lex/RenderLock.v); follow_ok/sep_ok demand exactly that follow set: behind a
+   number no identifier character, `.` or `#`, and no sign behind a trailing `e`; behind a string or bit string no
+   double quote; behind an extended identifier no backslash; behind a bit string with a length prefix also what a number demands.
+   The `_partial` theorems (explicit boolean well-formedness `supported_kind` instead of "is a lexer output",
+   usable for token lists that do not come from the tokenizer) are kept. *)
 From Coq Require Import List NArith Arith Bool.
 Import ListNotations.
-From RH Require Import Text.Contents Text.Reader Lex.LangLexer Lex.LexSpec Lex.Render Lex.RenderLex Lex.RenderProofs.
+From RH Require Import Text.Contents Text.Reader Lex.LangLexer Lex.LexSpec Lex.Render Lex.RenderToks Lex.RenderLex Lex.RenderProofs
+  Lex.RenderFull.
 Open Scope N_scope.
 
 (* (a) The tokenizer on a rendering, piece level: if every token text is followed by something its arm stops at,
@@ -34,7 +36,7 @@ Open Scope N_scope.
 Theorem C12_lex_pieces : forall ps, pieces_ok None ps = true -> pieces_supported ps = true ->
   exists ts', lex_all (pieces_text ps) = Done ts' [] /\ map tok_kv ts' = map tok_kv (lex_toks ps)
               /\ flat_map tok_keys ts' = attached_keys (S (length ps)) ps.
-Proof. exact lex_pieces. Qed.
+Proof. exact lex_pieces_supported. Qed.
 
 (* (b) render_lex_roundtrip for a trace of buffer operations and for a token list with a separator assignment *)
 Theorem C12_render_lex_roundtrip_ops_partial : forall l text,
@@ -53,6 +55,35 @@ Theorem C12_trace_checker_sound : forall ts tr l text,
   forallb supported_kind ts = true ->
   exists ts', lex_all text = Done ts' [] /\ same_stream ts ts'.
 Proof. exact trace_checker_sound. Qed.
+
+(* (b') the FULL statement: tokens of a diagnostic-free input, every kind *)
+Theorem C12_render_lex_roundtrip : forall s ts s0 l text,
+  lex_all s = Done ts [] -> map fst l = ts -> render s0 l = Some text -> sep_ok_from s0 l = true ->
+  exists ts', lex_all text = Done ts' [] /\ same_stream ts ts'.
+Proof. exact render_lex_roundtrip. Qed.
+Theorem C12_render_lex_roundtrip_ops : forall s ts l text,
+  lex_all s = Done ts [] -> ops_tokens l = ts -> render_ops l = Some text -> ops_sep_ok l = true ->
+  exists ts', lex_all text = Done ts' [] /\ same_stream ts ts'.
+Proof. exact render_lex_roundtrip_full. Qed.
+Theorem C12_trace_checker_sound_full : forall s ts tr l text,
+  lex_all s = Done ts [] -> trace_check ts tr = true -> inst_trace ts tr = Some l -> render_ops l = Some text ->
+  exists ts', lex_all text = Done ts' [] /\ same_stream ts ts'.
+Proof. exact trace_checker_sound_full. Qed.
+(* the mechanism: every token the tokenizer produces from a diagnostic-free input is read back — kind, value, no
+   warning — from its printed text followed by any rest accepted by follow_ok (`tok_good`, Lex/RenderToks.v) *)
+Theorem C12_lexer_output_reads_back : forall s ts, lex_all s = Done ts [] -> Forall tok_good ts.
+Proof. exact lex_output_good. Qed.
+(* and the round trip for any token list with that property *)
+Theorem C12_render_lex_roundtrip_good : forall l text,
+  render_ops l = Some text -> ops_sep_ok l = true -> Forall tok_good (ops_tokens l) ->
+  exists ts', lex_all text = Done ts' [] /\ same_stream (ops_tokens l) ts'.
+Proof. exact render_lex_roundtrip_good. Qed.
+(* non-vacuity of the full statement: x := 16#F.F#e-1 + 1.5e3 + 12sb[01] + x[AB] + 1E3 + 8#77# - 1_0; (bit strings written with brackets here) lexes to 16
+   tokens without diagnostics (not all of a `supported_kind`), one blank between the tokens satisfies sep_ok, and the
+   rendering re-lexes to the same stream *)
+Example C12_full_example : exists ts text, lex_all full_src = Done ts [] /\ length ts = 16%nat /\
+  render [] (spaced_b ts) = Some text /\ sep_ok (spaced_b ts) = true /\ forallb supported_kind ts = false /\ relex_same ts text = true.
+Proof. exact full_example. Qed.
 
 (* what a trace writes: its tokens in order and their comments (line comments trimmed) *)
 Theorem C12_render_writes_tokens_and_comments : forall l ps, render_pieces l = Some ps ->
@@ -86,6 +117,9 @@ Example C12_example_trace :
   exists l text, inst_trace ex_tokens ex_trace = Some l /\ render_ops l = Some text /\ relex_same ex_tokens text = true.
 Proof. exact example_trace_ok. Qed.
 
+Check C12_render_lex_roundtrip : forall s ts s0 l text,
+  lex_all s = Done ts [] -> map fst l = ts -> render s0 l = Some text -> sep_ok_from s0 l = true ->
+  exists ts', lex_all text = Done ts' [] /\ same_stream ts ts'.
 Check C12_render_lex_roundtrip_partial : forall s0 l text,
   render s0 l = Some text -> sep_ok_from s0 l = true -> forallb supported_kind (map fst l) = true ->
   exists ts', lex_all text = Done ts' [] /\ same_stream (map fst l) ts'.
@@ -101,6 +135,12 @@ Print Assumptions C12_lex_pieces.
 Print Assumptions C12_render_lex_roundtrip_ops_partial.
 Print Assumptions C12_render_lex_roundtrip_partial.
 Print Assumptions C12_trace_checker_sound.
+Print Assumptions C12_render_lex_roundtrip.
+Print Assumptions C12_render_lex_roundtrip_ops.
+Print Assumptions C12_trace_checker_sound_full.
+Print Assumptions C12_lexer_output_reads_back.
+Print Assumptions C12_render_lex_roundtrip_good.
+Print Assumptions C12_full_example.
 Print Assumptions C12_render_writes_tokens_and_comments.
 Print Assumptions C12_glue_hazard_examples.
 Print Assumptions C12_tick_example.
